@@ -8,4 +8,6 @@ export CARGO_NET_OFFLINE=true
 mkdir -p .build
 [ -f harness/Cargo.lock ] || cp /repo/Cargo.lock harness/Cargo.lock
 (cd harness && RUSTFLAGS="--cfg hctl_verif" CARGO_TARGET_DIR=../.build/target cargo build --release --offline 2>&1 | tail -3)
+# extraction sanity: the extracted driver must print what the kernel computed (ExtractionSanity.v)
+.build/ocaml/driver ocaml/sanity_cases.txt | diff - ocaml/sanity_expected.txt || { echo "EXTRACTION-SANITY-FAILED"; exit 1; }
 echo setup done
